@@ -1,12 +1,47 @@
-(* C08 - any specification-valid volume made by someone else is read faithfully.
-   The region classification is Spec/Regions.v (extracted and evaluated on every device write of the
-   implementation).  Theorems so far: the frame of image writes (nothing outside a write's range changes). *)
+(* C08 - any specification-valid volume made by someone else is read faithfully and modified conservatively.
+   Codec-level theorems: the MODEL of the library's readers agrees with the INDEPENDENT specification decoder
+   (Spec/Abs.v) on every encoding freedom the format leaves open at that level; updates keep what they must keep.
+   The whole-volume statement is checked on the implementation (tools/props/c08.py, independent image builder). *)
 From Coq Require Import NArith List.
-From FatVerif Require Import Model.Base Spec.Image Proofs.ImageProofs.
+From FatVerif Require Import Model.Base Model.Table Model.Fat Model.Name Spec.Image Spec.Abs
+  Proofs.ImageProofs Proofs.FatProofs Proofs.CrossProofs.
 Open Scope N_scope.
 
 Theorem C08_write_frame : forall bs im off o,
   (o < off \/ off + N.of_nat (length bs) <= o) -> img_get (img_write im off bs) o = img_get im o.
 Proof. exact img_write_outside. Qed.
 
+(* every raw table value - any legal end-of-chain marker (..F8-..FF), the bad-cluster mark, free, link - is read the
+   same way by the library and by the specification, for each width *)
+Theorem C08_fat12_values_agree : forall g v, g_bits g = 12 -> fatv_of (fat_classify g v) = classify12 v.
+Proof. exact classify12_agrees. Qed.
+Theorem C08_fat16_values_agree : forall g v, g_bits g = 16 -> fatv_of (fat_classify g v) = classify16 v.
+Proof. exact classify16_agrees. Qed.
+Theorem C08_fat32_values_agree : forall g c v, g_bits g = 32 -> c < 268435447 ->
+  fatv_of (fat_classify g v) = classify32 c v.
+Proof. exact classify32_agrees. Qed.
+
+(* short names: padding, extension dot and the 0x05 lead byte are rendered as the specification says *)
+Theorem C08_short_name_render_agrees : forall raw, length raw = 11%nat -> short_name_string raw = sfn_render raw.
+Proof. exact short_name_render_agrees. Qed.
+
+(* conservative modification at the table level: a FAT32 update keeps the reserved top four bits and stores exactly
+   the 28-bit value; an update touches only the bytes of that entry in the mirrored copies *)
+Theorem C08_fat32_update_keeps_reserved_bits : forall s c v s',
+  (1 <= fs_mirrors s)%nat -> bytes_ok (fs_img s) -> okc32 s c -> raw32 v < 268435456 -> set32 s c v = Ok s' ->
+  word32 s' c / 268435456 = word32 s c / 268435456 /\ word32 s' c mod 268435456 = raw32 v.
+Proof. exact fat32_set_keeps_high_nibble. Qed.
+
+Theorem C08_table_update_confined : forall ft s c v s' a,
+  okc_ft ft s c -> fat_set ft s c v = Ok s' ->
+  (a < fs_base s \/ fs_base s + N.of_nat (fs_mirrors s) * fs_size s <= a) ->
+  img_get (fs_img s') a = img_get (fs_img s) a.
+Proof. exact fat_update_inside_fat_copies. Qed.
+
 Print Assumptions C08_write_frame.
+Print Assumptions C08_fat12_values_agree.
+Print Assumptions C08_fat16_values_agree.
+Print Assumptions C08_fat32_values_agree.
+Print Assumptions C08_short_name_render_agrees.
+Print Assumptions C08_fat32_update_keeps_reserved_bits.
+Print Assumptions C08_table_update_confined.
